@@ -1003,7 +1003,7 @@ func scanNumber(l *lexer) (typ itemType, ok bool) {
 			// No signs for hexadecimals.
 			return
 		}
-		l.acceptRun("0x")
+		l.pos += 2 // the prefix "0x" (and not a run of 0s and xs: 0x0 is a number)
 		if !l.acceptRun(hexDigits) {
 			// Requires at least one digit.
 			return
